@@ -684,7 +684,7 @@ package mcp
 // The idle timer of a session (sessionInfo.timerMu): the in-flight POST count is never negative, a timer stopped for
 // good stays stopped, and - the point of the reference count - the idle timer is never counting down while a POST
 // is in progress.
-//@ monitor timerMu lock sessionInfo.timerMu as i [C11, C04]
+//@ monitor timerMu lock sessionInfo.timerMu as i [C11, C04, C05]
 //@   protects fields(sessionInfo.refs), fields(sessionInfo.timer), ghosts("armed")
 //@   unpublished (*StreamableHTTPHandler).serveStatefulPOST
 //@   assume i.refs < 4611686018427387904   // fewer than 2^62 POSTs in flight on one session
@@ -693,14 +693,14 @@ package mcp
 //@   transition @stopped-timer-stays-stopped old(i.timer) == nil ==> i.timer == nil
 //@   transition @timer-never-replaced i.timer == nil || i.timer == old(i.timer)
 
-//@ func (*sessionInfo).startPOST [C11, C04]
+//@ func (*sessionInfo).startPOST [C11, C04, C05]
 //@   requires i != nil
 //@   ensures @counts-the-post old(i.timeout) > 0 && at(locked, i.timer) != nil ==> at(unlocked, i.refs) == at(locked, i.refs) + 1 && !at(unlocked, ghostOf("armed", i.timer))
-//@ func (*sessionInfo).endPOST [C11, C04]
+//@ func (*sessionInfo).endPOST [C11, C04, C05]
 //@   requires i != nil
 //@   ensures @uncounts-the-post old(i.timeout) > 0 && at(locked, i.timer) != nil ==> at(unlocked, i.refs) == at(locked, i.refs) - 1
 //@   ensures @last-post-rearms old(i.timeout) > 0 && at(locked, i.timer) != nil && at(locked, i.refs) == 1 ==> at(unlocked, ghostOf("armed", i.timer))
-//@ func (*sessionInfo).stopTimer [C11, C04]
+//@ func (*sessionInfo).stopTimer [C11, C04, C05]
 //@   requires i != nil
 //@   ensures @stops-for-good at(unlocked, i.timer) == nil && (at(locked, i.timer) != nil ==> !at(unlocked, ghostOf("armed", at(locked, i.timer))))
 
